@@ -120,4 +120,8 @@ theorem addExecute_body (a : Addr) (st : SrvState) :
   obtain ⟨w, qp, rec, hst, hw, hb, he⟩ := (addExecute_full a st).1 h
   exact ⟨w, qp, rec, hst, hw, by simp only [Resp.hostnames, hb]; rfl, he⟩
 
+/-- `boolToInt` as a JSON number -/
+theorem atom_boolToInt (b : Bool) : JAtom.int ↑(boolToInt b) = JAtom.int (if b then 1 else 0) := by
+  cases b <;> rfl
+
 end Swat4.Rest
